@@ -172,6 +172,7 @@ class Run:
         self.hang = False
         self.n_probe = 0
         self.spawn_errors: list = []
+        self.spawn_refused: list = []
         self.cancel_phases: list[tuple] = []
         self.cancel_in_cleanup: list[bool] = []
 
@@ -362,6 +363,27 @@ class Run:
                 rec["end"] = "ret"
             except asyncio.CancelledError:
                 rec["end"] = "cancelled"
+                if sp["kind"] == "respawn":
+                    # cleanup code that tries to spawn follow-up work while the scope is shutting
+                    # down: it must be refused (or awaited) - never left running detached
+                    h = {"name": name + ".flush", "spec": {"kind": "ret", "pauses": 1}, "task": None, "started": False, "end": None, "owner": owner}
+
+                    async def flush(h=h):
+                        h["started"] = True
+                        try:
+                            await self.w.pause(h["name"] + ".p0")
+                            h["end"] = "ret"
+                        except asyncio.CancelledError:
+                            h["end"] = "cancelled"
+                            raise
+
+                    try:
+                        h["task"] = ctx.spawn(flush)
+                        if owner is not None:
+                            self.spawned.setdefault(owner, []).append(h)
+                        self.all_spawned.append(h)
+                    except BaseException as exc:  # noqa: BLE001
+                        self.spawn_refused.append((h["name"], type(exc).__name__))
                 raise
 
         try:
